@@ -1,0 +1,83 @@
+//go:build verif
+
+// Contracts for the write side: struct field setters (struct.go), raw pointer construction
+// (rawpointer.go).
+package capnp
+
+// ---------------------------------------------------------------- struct data setters
+// "What is written is what is read back; setting a field never disturbs any other field":
+// every setter stores exactly its little-endian bytes at the field's address and leaves every
+// other byte of every array untouched.
+
+//@ func Struct.SetUint8
+//@   props C04 C05
+//@   requires wfStruct(p) && off < 1<<19 && inData(p, off, 1)
+//@   ensures p.seg.data[dataAddr(p, off)] == v
+//@   ensures bytesUnchangedExcept(p.seg.data, dataAddr(p, off), dataAddr(p, off)+1)
+
+//@ func Struct.SetUint16
+//@   props C04 C05
+//@   requires wfStruct(p) && off < 1<<19 && inData(p, off, 2)
+//@   ensures LE16(p.seg.data, dataAddr(p, off)) == v
+//@   ensures bytesUnchangedExcept(p.seg.data, dataAddr(p, off), dataAddr(p, off)+2)
+
+//@ func Struct.SetUint32
+//@   props C04 C05
+//@   requires wfStruct(p) && off < 1<<19 && inData(p, off, 4)
+//@   ensures LE32(p.seg.data, dataAddr(p, off)) == v
+//@   ensures bytesUnchangedExcept(p.seg.data, dataAddr(p, off), dataAddr(p, off)+4)
+
+//@ func Struct.SetUint64
+//@   props C04 C05
+//@   requires wfStruct(p) && off < 1<<19 && inData(p, off, 8)
+//@   ensures LE64(p.seg.data, dataAddr(p, off)) == v
+//@   ensures bytesUnchangedExcept(p.seg.data, dataAddr(p, off), dataAddr(p, off)+8)
+
+//@ func Struct.SetBit
+//@   props C04 C05
+//@   requires wfStruct(p) && p.seg != nil && M(n) < 8*M(p.size.DataSize)
+//@   old b0 byte = p.seg.data[int(M(p.off)+M(n)/8)]
+//@   -- exactly one bit of one byte changes
+//@   ensures implies(v, p.seg.data[int(M(p.off)+M(n)/8)] == b0|(1<<(n%8)))
+//@   ensures implies(!v, p.seg.data[int(M(p.off)+M(n)/8)] == b0&^(1<<(n%8)))
+//@   ensures bytesUnchangedExcept(p.seg.data, int(M(p.off)+M(n)/8), int(M(p.off)+M(n)/8)+1)
+
+// ---------------------------------------------------------------- raw pointer construction
+// Every constructor decodes (through the spec functions of encoding.html) to what was encoded.
+
+//@ func rawStructPointer -> r
+//@   props C04 C05
+//@   requires sz.DataSize%8 == 0 && M(sz.DataSize) <= 0xffff*8 && -(1<<29) <= off && off < 1<<29
+//@   ensures sKind(r) == 0 && sOff(r) == int32(off)
+//@   ensures 8*M(sDataWords(r)) == M(sz.DataSize) && sPtrWords(r) == sz.PointerCount
+
+//@ func rawListPointer -> r
+//@   props C04 C05
+//@   requires -(1<<29) <= off && off < 1<<29 && 0 <= length && length < 1<<29 && 0 <= listType && listType <= 7
+//@   ensures sKind(r) == 1 && sOff(r) == int32(off) && sElemCode(r) == int(listType) && sElemCount(r) == length
+
+//@ func rawInterfacePointer -> r
+//@   props C04 C05
+//@   ensures sKind(r) == 3 && sCapIndex(r) == uint32(capability) && (r>>2)&0x3fffffff == 0
+
+//@ func rawFarPointer -> r
+//@   props C04 C05
+//@   requires off%8 == 0
+//@   ensures sKind(r) == 2 && !sFarDouble(r) && 8*M(sFarPadWords(r)) == M(off) && sFarSeg(r) == uint32(segID)
+
+//@ func rawDoubleFarPointer -> r
+//@   props C04 C05
+//@   requires off%8 == 0
+//@   ensures sKind(r) == 2 && sFarDouble(r) && 8*M(sFarPadWords(r)) == M(off) && sFarSeg(r) == uint32(segID)
+
+//@ func rawPointer.withOffset -> r
+//@   props C04 C05
+//@   requires -(1<<29) <= off && off < 1<<29 && (sKind(p) == 0 || sKind(p) == 1)
+//@   ensures sKind(r) == sKind(p) && r>>32 == p>>32 && sOff(r) == int32(off)
+
+//@ func nearPointerOffset -> r
+//@   props C04 C05
+//@   -- for word-aligned addresses the offset, resolved against the end of the pointer word, is addr
+//@   requires paddr%8 == 0 && addr%8 == 0
+//@   ensures M(paddr)+8+8*M(r) == M(addr)
+//@   ensures -(1<<29) <= r && r < 1<<29
